@@ -199,6 +199,11 @@ func mk[S, D signal.SignalTypes](fn, s, d string, conv func(*signal.Buffer[S], *
 					gd.Append(dbuf)
 					base, dbuf = gs, gd
 				}
+				if fix == 9 && fr >= 1 {
+					// the source was converted into a shorter destination (one frame) before: a
+					// conversion must leave its source as it was, header included
+					conv(base, signal.Alloc[D](signal.Allocator{Channels: channels, Length: 1, Capacity: 1}))
+				}
 				src, csrc, dst, size = base, base, dbuf, n
 				for base.Len() < n && a.Length < fr {
 					base.AppendSample(0)
